@@ -44,7 +44,12 @@ def request_sweep(job):
             cnt("definitions_rejected_by_inspection")
             continue
         case = dict(wf=wf, inputs=inputs, oseed=h64(job.get("gseed", 0), seed, "o") % 100000, p_fail=0.25)
-        run = explore.make_run(case, [], model=m)
+        # every other history: actions acknowledged with mixed statuses (running / scheduled / requested / delayed), so
+        # that several executions of one task are active with different statuses when the request is tried
+        mixed = job.get("ack_chain") == "mixed" or (job.get("ack_chain") is None and seed % 2 == 1)
+        run = explore.make_run(case, [], model=m, ack_chain="mixed" if mixed else False)
+        if mixed:
+            cnt("histories_with_mixed_acks")
         seen_states = set()
         viols = []
 
@@ -58,6 +63,12 @@ def request_sweep(job):
                 return
             seen_states.add(key)
             cnt("sweep.states")
+            act = {}
+            for r in before["state"]["sequence"]:
+                if r.get("status") in ("running", "requested", "scheduled", "delayed", "pausing", "canceling", "resuming", "paused", "pending"):
+                    act.setdefault(r["id"], set()).add(r["status"])
+            if any(len(v) > 1 for v in act.values()):
+                cnt("sweep.states_with_one_task_active_in_different_statuses")
             for req in statuses.ALL_STATUSES:
                 c2 = clone(c)
                 if canon(snap(c2)) != canon(before):
